@@ -701,3 +701,37 @@ func Table(seed []byte, min, max int, r interface {
 	}
 	return out
 }
+
+// TableWithWeights continues the same generator after Table to obtain the
+// weights: uniform weights are one Float64 per value; "biased" (ScrambleSuit
+// style) weights give value i the fraction Float64() of the probability mass
+// still unassigned.  Returned probabilities are normalised.
+func TableWithWeights(seed []byte, min, max int, biased bool, r interface {
+	Perm(int) []int
+	Intn(int) int
+	Float64() float64
+}) (values []int, probs []float64) {
+	values = Table(seed, min, max, r)
+	w := make([]float64, len(values))
+	if biased {
+		cum := 0.0
+		for i := range w {
+			p := (1.0 - cum) * r.Float64()
+			w[i] = p
+			cum += p
+		}
+	} else {
+		for i := range w {
+			w[i] = r.Float64()
+		}
+	}
+	sum := 0.0
+	for _, x := range w {
+		sum += x
+	}
+	probs = make([]float64, len(w))
+	for i, x := range w {
+		probs[i] = x / sum
+	}
+	return values, probs
+}
